@@ -3,6 +3,8 @@
      chk caller_mutated ...         the implementation changed the map it was handed
      chk sink_row_changed ...       a row given to a sink differs later
      chk instance_interference ...  an instance's output next to another instance differs from its output alone
+                                    (kinds registry_*: alone = in a fresh process)
+     chk delivered_row_aliases_caller ...  overwriting the delivered row maps changed the caller's map
      diff ...                       extracted model and implementation disagree on an observable *)
 open Model
 open Util
@@ -13,6 +15,7 @@ let string_of_bytes (b : n list) : string = String.concat "" (List.map (fun x ->
 let c20_clause = function
   | IClCallerMutated -> "caller_mutated" | IClSinkRowChanged -> "sink_row_changed"
   | IClInstanceInterference -> "instance_interference"
+  | IClDeliveredAliasesCaller -> "delivered_row_aliases_caller"
 
 (* ---- value tokens: n | i<dec> | s<hex> | l[v,..] | m{key:v,..} ---- *)
 exception Unparsable of string
@@ -196,17 +199,21 @@ let handle (toks : string list) : string =
        | _ -> "bad line")
   | ["U"; kind; mode; wr; _sql; before; after] ->
       (match iso_chk_same IClCallerMutated (bytes_of_string before) (bytes_of_string after) with
-       | Some cl -> Printf.sprintf "chk %s kind=%s mode=%s" (c20_clause cl) kind mode
+       | Some cl -> Printf.sprintf "chk %s kind=%s mode=%s before=%s after=%s" (c20_clause cl) kind mode before after
        | None -> if wr = "w" then "ok nt" else "ok")
   | ["S"; kind; _sql; at; later] ->
       (match iso_chk_same IClSinkRowChanged (bytes_of_string at) (bytes_of_string later) with
        | Some cl -> Printf.sprintf "chk %s kind=%s" (c20_clause cl) kind
        | None -> "ok")
+  | ["A"; kind; mode; _sql; before; after] ->
+      (match iso_chk_same IClDeliveredAliasesCaller (bytes_of_string before) (bytes_of_string after) with
+       | Some cl -> Printf.sprintf "chk %s kind=%s mode=%s before=%s after_overwriting_delivered_rows=%s" (c20_clause cl) kind mode before after
+       | None -> "ok")
   | ["P"; kind; mode; _sa; _sb; soloa; paira; solob; pairb] ->
       (match iso_chk_same IClInstanceInterference (bytes_of_string soloa) (bytes_of_string paira),
              iso_chk_same IClInstanceInterference (bytes_of_string solob) (bytes_of_string pairb) with
-       | Some cl, _ -> Printf.sprintf "chk %s instance=A kind=%s mode=%s" (c20_clause cl) kind mode
-       | _, Some cl -> Printf.sprintf "chk %s instance=B kind=%s mode=%s" (c20_clause cl) kind mode
+       | Some cl, _ -> Printf.sprintf "chk %s instance=A kind=%s mode=%s alone=%s next_to_B=%s" (c20_clause cl) kind mode soloa paira
+       | _, Some cl -> Printf.sprintf "chk %s instance=B kind=%s mode=%s alone=%s next_to_A=%s" (c20_clause cl) kind mode solob pairb
        | None, None -> "ok nt")
   | _ -> "bad line"
 
